@@ -6,61 +6,62 @@ whitelisted fees and ContractManagement ride along.
 -/
 import NeoModel.Proofs.LedgerGuarded
 import NeoModel.Proofs.LedgerGpb
+import NeoModel.Proofs.LedgerMgmt
 namespace NeoModel.Ledger.Natives
 open NeoModel.Ledger Components Guarded
 
-abbrev GStore := Storage × List (Nat × Int) × List (WKey × Int) × RoleStore × MgmtStore × Recs × Int
-abbrev GCache := Caches × List (Nat × Int) × List (WKey × Int) × RoleCache × List (Nat × (Int × Nat)) × Recs × Unit
-abbrev GBlock := List Tx × List (CTx (GCall GSetOp)) × List (CTx WlOp) × List (CTx (GCall DesOp)) × List (CTx MgmtOp) × List (CTx (GCall Int)) × List (CTx (GCall Int))
-abbrev GRes := List Res × List Bool × Unit × List Bool × Unit × List Bool × List Bool
-abbrev GGet := Getters × List (Nat × Int) × List (WKey × Int) × RoleCache × List (Nat × (Int × Nat)) × (Nat → Option Int) × Unit
+abbrev GStore := Storage × List (Nat × Int) × List (WKey × Int) × RoleStore × Mgmt.MStore × Recs × Int
+abbrev GCache := Caches × List (Nat × Int) × List (WKey × Int) × RoleCache × Mgmt.MCache × Recs × Unit
+abbrev GBlock := List Tx × List (CTx (GCall GSetOp)) × List (CTx WlOp) × List (CTx (GCall DesOp)) × List (CTx Mgmt.MOp) × List (CTx (GCall Int)) × List (CTx (GCall Int))
+abbrev GRes := List Res × List Bool × Unit × List Bool × List Bool × List Bool × List Bool
+abbrev GGet := Getters × List (Nat × Int) × List (WKey × Int) × RoleCache × (Nat → Option (Int × Nat × Flags.MF.Item)) × (Nat → Option Int) × Unit
 
 /-- the components that run in the environment the natives part supplies -/
-def compsE : EUSys Env (List (Nat × Int) × List (WKey × Int) × RoleStore × MgmtStore × Recs × Int)
-    (List (Nat × Int) × List (WKey × Int) × RoleCache × List (Nat × (Int × Nat)) × Recs × Unit)
-    (List (CTx (GCall GSetOp)) × List (CTx WlOp) × List (CTx (GCall DesOp)) × List (CTx MgmtOp) × List (CTx (GCall Int)) × List (CTx (GCall Int)))
-    (List Bool × Unit × List Bool × Unit × List Bool × List Bool)
-    (List (Nat × Int) × List (WKey × Int) × RoleCache × List (Nat × (Int × Nat)) × (Nat → Option Int) × Unit) :=
-  gsettings.toEUSys.prod ((whitelist.toUSys.toE Env).prod (gdesignate.toEUSys.prod ((management.toUSys.toE Env).prod
+def compsE (P : Mgmt.Params) : EUSys Env (List (Nat × Int) × List (WKey × Int) × RoleStore × Mgmt.MStore × Recs × Int)
+    (List (Nat × Int) × List (WKey × Int) × RoleCache × Mgmt.MCache × Recs × Unit)
+    (List (CTx (GCall GSetOp)) × List (CTx WlOp) × List (CTx (GCall DesOp)) × List (CTx Mgmt.MOp) × List (CTx (GCall Int)) × List (CTx (GCall Int)))
+    (List Bool × Unit × List Bool × List Bool × List Bool × List Bool)
+    (List (Nat × Int) × List (WKey × Int) × RoleCache × (Nat → Option (Int × Nat × Flags.MF.Item)) × (Nat → Option Int) × Unit) :=
+  gsettings.toEUSys.prod ((whitelist.toUSys.toE Env).prod (gdesignate.toEUSys.prod (((Mgmt.mgmtU P).toE Env).prod
     (gpbU.prod gmindeploy.toEUSys))))
 
 /-- all modelled natives in one single-state system -/
-def allUG (cfg : Cfg) : USys GStore GCache GBlock GRes GGet := (natU cfg).dprod (envOf cfg) compsE
+def allUG (cfg : Cfg) (P : Mgmt.Params) : USys GStore GCache GBlock GRes GGet := (natU cfg).dprod (envOf cfg) (compsE P)
 
-def AllGoodG (cfg : Cfg) : GStore → GCache → Nat → Prop :=
+def AllGoodG (cfg : Cfg) (P : Mgmt.Params) : GStore → GCache → Nat → Prop :=
   fun v c h => NatGood cfg v.1 c.1 h ∧ (c.2.1 = gsettings.init v.2.1 ∧ (c.2.2.1 = whitelist.init v.2.2.1 ∧
-    (c.2.2.2.1 = gdesignate.init v.2.2.2.1 ∧ (c.2.2.2.2.1 = management.init v.2.2.2.2.1 ∧
+    (c.2.2.2.1 = gdesignate.init v.2.2.2.1 ∧ (Mgmt.MgmtJ P v.2.2.2.2.1 c.2.2.2.2.1 ∧
       (GpbGood v.2.2.2.2.2.1 c.2.2.2.2.2.1 h ∧ c.2.2.2.2.2.2 = gmindeploy.init v.2.2.2.2.2.2)))))
 
-theorem allUG_adequate (cfg : Cfg) : UAdequate (allUG cfg) (AllGoodG cfg) :=
+theorem allUG_adequate (cfg : Cfg) (P : Mgmt.Params) (hy : Mgmt.Hyp P) : UAdequate (allUG cfg P) (AllGoodG cfg P) :=
   (natU_adequate cfg).dprod
     (EUSys.prod_adequate (EComp.uadequate gsettings gsettings_exact)
       (EUSys.prod_adequate (USys.toE_adequate whitelist_exact.uadequate)
         (EUSys.prod_adequate (EComp.uadequate gdesignate gdesignate_exact)
-          (EUSys.prod_adequate (USys.toE_adequate management_exact.uadequate)
+          (EUSys.prod_adequate (USys.toE_adequate (Mgmt.mgmtU_adequate P hy))
             (EUSys.prod_adequate gpbU_adequate (EComp.uadequate gmindeploy gmindeploy_exact))))))
     (fun v c₁ c₂ h g1 g2 => envOf_det cfg v c₁ c₂ h g1 g2)
 
-def allDefaultG : GCache := (emptyCaches, [], [], [], [], [], ())
+def allDefaultG : GCache := (emptyCaches, [], [], [], fun _ => none, [], ())
 
-def allSysG (cfg : Cfg) := (allUG cfg).toSys allDefaultG
+def allSysG (cfg : Cfg) (P : Mgmt.Params) := (allUG cfg P).toSys allDefaultG
 
 /-- the node right after the genesis block: natives part at genesis; settings as Initialize of Policy / Notary / Oracle /
     NEO leaves them for the protocol configuration (mtb, vubi, mspb); one gasPerBlock record; the default minimum
-    deployment fee (10 GAS, management.go:816); the other components
+    deployment fee (10 GAS, management.go:816); no deployed contract; the other components
     with the given initial storage and the caches InitializeCache builds from it -/
-def allGenesisNodeG (cfg : Cfg) (holder : Acct) (mtb vubi mspb : Int) (w0 : List (WKey × Int)) (r0 : RoleStore) (m0 : MgmtStore) :
+def allGenesisNodeG (cfg : Cfg) (P : Mgmt.Params) (holder : Acct) (mtb vubi mspb : Int) (w0 : List (WKey × Int)) (r0 : RoleStore) :
     Node Unit GStore GCache GRes Unit :=
-  { db := fun _ => some (genesisStorage cfg holder, genesisSettings mtb vubi mspb, w0, r0, m0, [(0, 500000000)], 1000000000), mem := [],
+  { db := fun _ => some (genesisStorage cfg holder, genesisSettings mtb vubi mspb, w0, r0, Mgmt.emptyStore, [(0, 500000000)], 1000000000), mem := [],
     cache := (genesisCaches cfg holder, gsettings.init (genesisSettings mtb vubi mspb), whitelist.init w0, gdesignate.init r0,
-              management.init m0, [(0, 500000000)], ()),
-    height := 0, pool := [], last := ([], [], (), [], (), [], []) }
+              Mgmt.init P Mgmt.emptyStore, [(0, 500000000)], ()),
+    height := 0, pool := [], last := ([], [], (), [], [], [], []) }
 
-theorem allGenesisG_good (cfg : Cfg) (holder : Acct) (mtb vubi mspb : Int) w0 r0 m0 :
-    UGood (AllGoodG cfg) (allGenesisNodeG cfg holder mtb vubi mspb w0 r0 m0).read
-      (allGenesisNodeG cfg holder mtb vubi mspb w0 r0 m0).cache 0 := by
-  refine ⟨(genesisStorage cfg holder, genesisSettings mtb vubi mspb, w0, r0, m0, [(0, 500000000)], 1000000000), rfl, ?_, rfl, rfl, rfl, rfl,
-    gpb_genesis_good _, rfl⟩
+theorem allGenesisG_good (cfg : Cfg) (P : Mgmt.Params) (holder : Acct) (mtb vubi mspb : Int) w0 r0 :
+    UGood (AllGoodG cfg P) (allGenesisNodeG cfg P holder mtb vubi mspb w0 r0).read
+      (allGenesisNodeG cfg P holder mtb vubi mspb w0 r0).cache 0 := by
+  refine ⟨(genesisStorage cfg holder, genesisSettings mtb vubi mspb, w0, r0, Mgmt.emptyStore, [(0, 500000000)], 1000000000), rfl, ?_, rfl, rfl, rfl,
+    Mgmt.mgmt_empty_good P, gpb_genesis_good _, rfl⟩
   obtain ⟨st, hst, hp, hn⟩ := genesis_good cfg holder
   have : st = genesisStorage cfg holder := by
     have : (genesisNode cfg holder).read () = some (genesisStorage cfg holder) := rfl
